@@ -35,7 +35,7 @@ FuncNode = (ast.FunctionDef, ast.AsyncFunctionDef)
 
 
 class ModuleInfo:
-    def __init__(self, name: str, path: str, source: str):
+    def __init__(self, name: str, path: str, source: str, index: bool = True):
         self.name = name
         self.path = path
         self.source = source
@@ -43,7 +43,8 @@ class ModuleInfo:
         self.functions: dict[str, ast.FunctionDef] = {}
         self.classes: dict[str, ast.ClassDef] = {}
         self.imports: dict[str, str] = {}  # local name -> dotted origin
-        self._index()
+        if index:
+            self._index()
 
     def _index(self) -> None:
         def visit(node, prefix, fn_qual, cls):
@@ -80,6 +81,103 @@ class ModuleInfo:
                     self.imports[a.asname or a.name] = a.name
 
 
+PRIVATE_BASELINE = os.path.join(os.path.dirname(os.path.abspath(__file__)), "private_baseline.json")
+_PROTOCOL = ("_latex", "_sympystr", "_eval_", "_print", "_pretty", "_repr")
+
+
+def private_table(tree) -> dict:
+    """{qualified name: [parameter names]} of the private functions of a module: leading underscore (no dunder, no
+    sympy protocol hooks) or nested in another function; plus {"Class.@attr": []} for private instance attributes
+    assigned through ``self._x = ...``."""
+    out = {}
+
+    def visit(node, prefix, in_fn, cls):
+        for child in ast.iter_child_nodes(node):
+            if isinstance(child, FuncNode):
+                q = f"{prefix}{child.name}"
+                priv = (child.name.startswith("_") and not child.name.startswith("__")
+                        and not child.name.startswith(_PROTOCOL)) or in_fn
+                if priv and q not in out:
+                    a = child.args
+                    out[q] = [x.arg for x in a.posonlyargs + a.args + a.kwonlyargs]
+                visit(child, q + ".", True, cls)
+            elif isinstance(child, ast.ClassDef):
+                visit(child, f"{prefix}{child.name}.", in_fn, f"{prefix}{child.name}")
+            else:
+                if cls and isinstance(child, ast.Attribute) and isinstance(child.ctx, ast.Store) \
+                        and isinstance(child.value, ast.Name) and child.value.id == "self" \
+                        and child.attr.startswith("_") and not child.attr.startswith("__"):
+                    out.setdefault(f"{cls}.@{child.attr}", [])
+                visit(child, prefix, in_fn, cls)
+    visit(tree, "", False, None)
+    return out
+
+
+def _strip_self(params):
+    return params[1:] if params and params[0] in ("self", "cls") else params
+
+
+def canonicalise_private_names(modules: dict) -> dict:
+    """Undo consistent renamings of private names relative to the recorded baseline (sa/private_baseline.json, the
+    private names of the tree the rules were confirmed on).  A private name of the baseline that is missing from a
+    module is paired with a private name of the same module that the baseline does not know when the pairing is
+    unambiguous: same owner and identical parameter list (functions), or exactly one missing and one new private
+    attribute in the class.  The new spelling is then replaced by the recorded one in every syntax tree (definitions,
+    calls, attribute accesses, imports), which is behaviour preserving because the renaming is consistent.  Anything
+    ambiguous is left alone; a rule that needs the vanished name then fails as analysis error, as before.
+    Returns {new spelling: recorded spelling}."""
+    import json
+    if not os.path.exists(PRIVATE_BASELINE):
+        return {}
+    with open(PRIVATE_BASELINE) as f:
+        base = json.load(f)
+    mapping: dict[str, str] = {}
+    for name, m in modules.items():
+        b = base.get(name)
+        if not b:
+            continue
+        cur = private_table(m.tree)
+        missing = [q for q in b if q not in cur]
+        new = [q for q in cur if q not in b]
+        if not missing or not new:
+            continue
+        used = set()
+        for q in missing:
+            owner, _, last = q.rpartition(".")
+            if last.startswith("@"):
+                cands = [n for n in new if n.rpartition(".")[0] == owner and n.rpartition(".")[2].startswith("@")]
+                others = [x for x in missing if x.rpartition(".")[0] == owner and x.rpartition(".")[2].startswith("@")]
+                if len(cands) == 1 and len(others) == 1 and cands[0] not in used:
+                    used.add(cands[0])
+                    mapping[cands[0].rpartition(".")[2][1:]] = last[1:]
+                continue
+            if any(k.rpartition(".")[2] == last for k in cur):
+                continue            # same name somewhere else in the module: moved, resolved by Model.fn
+            cands = [n for n in new if not n.rpartition(".")[2].startswith("@") and n not in used
+                     and _strip_self(cur[n]) == _strip_self(b[q])]
+            same_owner = [n for n in cands if n.rpartition(".")[0] == owner]
+            pick = same_owner if len(same_owner) == 1 else cands if len(cands) == 1 and not same_owner else []
+            if len(pick) == 1:
+                used.add(pick[0])
+                mapping[pick[0].rpartition(".")[2]] = last
+    # a new spelling that is also a recorded private name elsewhere, or two new spellings for one name, are ambiguous
+    recorded = {q.rpartition(".")[2].lstrip("@") for t in base.values() for q in t}
+    mapping = {n: o for n, o in mapping.items() if n not in recorded and n != o}
+    if not mapping:
+        return {}
+    for m in modules.values():
+        for node in ast.walk(m.tree):
+            if isinstance(node, FuncNode) and node.name in mapping:
+                node.name = mapping[node.name]
+            elif isinstance(node, ast.Name) and node.id in mapping:
+                node.id = mapping[node.id]
+            elif isinstance(node, ast.Attribute) and node.attr in mapping:
+                node.attr = mapping[node.attr]
+            elif isinstance(node, ast.alias) and node.name in mapping:
+                node.name = mapping[node.name]
+    return mapping
+
+
 class Model:
     PKG = "adcgen"
 
@@ -101,9 +199,14 @@ class Model:
                     src = f.read()
                 h.update(rel.encode() + b"\0" + src.encode() + b"\0")
                 try:
-                    self.modules[rel] = ModuleInfo(rel, path, src)
+                    self.modules[rel] = ModuleInfo(rel, path, src, index=False)
                 except SyntaxError as e:
                     raise AnalysisError(f"cannot parse {path}: {e}")
+        # private names (leading underscore, nested functions, private attributes) are not public surface: a
+        # consistent renaming of one of them is undone before anything is analysed (see canonicalise_private_names)
+        self.renamed: dict[str, str] = canonicalise_private_names(self.modules)
+        for m in self.modules.values():
+            m._index()
         self.digest = h.hexdigest()[:16]
         self.used_modules: set[str] = set()
 
@@ -119,12 +222,26 @@ class Model:
         mod, _, q = ref.partition(":")
         m = self.module(mod)
         if q not in m.functions:
-            raise AnalysisError(f"anchor function {ref} not found")
+            alt = self._moved_private(m, q)
+            if alt is None:
+                raise AnalysisError(f"anchor function {ref} not found")
+            return m.functions[alt]
         return m.functions[q]
+
+    @staticmethod
+    def _moved_private(m: ModuleInfo, q: str):
+        """A private helper that kept its name but moved (method <-> module level <-> nested): the unique function of
+        the module with that last name."""
+        last = q.split(".")[-1]
+        if not last.startswith("_") or last.startswith("__"):
+            return None
+        cands = [k for k in m.functions if k.split(".")[-1] == last]
+        return cands[0] if len(cands) == 1 else None
 
     def has_fn(self, ref: str) -> bool:
         mod, _, q = ref.partition(":")
-        return mod in self.modules and q in self.modules[mod].functions
+        return mod in self.modules and (q in self.modules[mod].functions or
+                                        self._moved_private(self.modules[mod], q) is not None)
 
     def cls(self, ref: str) -> ast.ClassDef:
         mod, _, q = ref.partition(":")
